@@ -185,7 +185,7 @@ func genSchema(r *rng.R) *schemaDef {
 		objNames = append(objNames, "M")
 		s.mutation = "M"
 	}
-	ifaceNames := []string{"I", "J"}[:r.Intn(3)]
+	ifaceNames := []string{"I", "J", "K"}[:r.Intn(4)]
 	unionNames := []string{"U", "V"}[:r.Intn(3)]
 	var leafNames, compNames []string
 	for _, t := range s.types {
@@ -233,7 +233,7 @@ func genSchema(r *rng.R) *schemaDef {
 	for _, n := range objNames {
 		t := &typeDef{name: n, kind: "object", fields: pick(2, 5)}
 		for _, i := range ifaces {
-			if r.Chance(1, 2) {
+			if r.Chance(3, 5) {
 				t.ifaces = append(t.ifaces, i.name)
 				for _, f := range i.fields {
 					if t.field(f.name) == nil {
